@@ -103,7 +103,7 @@ class ModelView:
         if self.no_default:
             self.out = reaches(u.ins, self.no_default)
             self.path = Path(str(u.ir_path) + ".pruned")
-            write_ir2_file_pruned(u.ins, self.path, self.no_default)
+            write_ir2_file_pruned(u.ins, self.path, self.out)    # nothing that is left refers to a cut instance
             rc, o, err = run_lines(ref, [str(self.path)], ["wf"])
             if o != ["ok true"]:
                 self.whole_unit_out = "wf2 is false for the pruned dump"
